@@ -29,6 +29,7 @@ def main():
         limit = job.get('case_timeout', 20)
         timeouts = 0
         for ln in lines:
+            realenv.set_case(ln)
             real = realenv.guarded(comp['real'], limit, ln)
             recs, spec = [], []
             if real == 'TIMEOUT':
